@@ -100,7 +100,30 @@ def check_transparency(run, rule):
     run.ob(rule, "read_block:return-after-read", ok, rb, rb["line"],
            why_ok if ok else
            "read_block must call block.read() before it returns a block with eof == false")
-    # eof=true only on the two end-of-array paths
+    # nothing that can hit the end of the input runs between the completed block.read() and the return of that block: a
+    # look-ahead there throws CdnsDecoderEnd exactly when the prefix ends at a block boundary, and the complete block is lost
+    def late_input(fn):
+        """(block.read calls, calls after the first of them that can reach the refill)"""
+        order = {id(x): i for i, x in enumerate(ir.walk(fn["body"]))}
+        rd = [c for c in ir.calls_in(fn["body"]) if callee_qn(c) == "CDNS::CdnsBlockRead::read"]
+        refill = "CDNS::CdnsDecoder::read_to_buffer"
+
+        def may_end(c):
+            for g in cg.resolve(c, fn):
+                if any(h["qn"] == refill for h in cg.reachable([g]).values()):
+                    return True
+            return False
+        return rd, [c for c in ir.calls_in(fn["body"]) if rd and order.get(id(c), -1) > order[id(rd[0])] and may_end(c)]
+    if not late_input(facts.control("r05_3_late_lookahead", rule))[1]:
+        raise AnalysisBroken(rule, "the look-ahead-after-block detector is silent on its control (tu/rule_controls.cpp)")
+    rd, late = late_input(rb)
+    if len(rd) != 1:
+        run.ob(rule, "read_block:no-input-after-block", None, rb, rb["line"], "expected exactly one block.read(...) call, found %d" % len(rd))
+    else:
+        run.ob(rule, "read_block:no-input-after-block", not late, rb, late[0].get("l", rb["line"]) if late else rb["line"],
+               "once block.read() returned, the block is handed back without touching the input again" if not late else
+               "%s() reads from the input after the block was decoded and before it is returned: when the input ends exactly at the "
+               "block boundary CdnsDecoderEnd is thrown and the complete block is discarded" % (callee_qn(late[0]) or "?").split("::")[-1])
     run.floor(rule, 20, "functions on the read path")
     run.info["read_path_functions"] = n
 
